@@ -3,6 +3,7 @@
 from __future__ import annotations
 
 import copy
+import math
 import re
 from abc import ABC
 from abc import abstractmethod
@@ -223,6 +224,15 @@ class FloatLiteral(Literal[float]):
     """A float literal."""
 
     __slots__ = ()
+
+    def __str__(self) -> str:
+        # An out of range literal, like `1e400`, is infinity. `repr()` gives
+        # "inf", which is not a number in the JSONPath syntax.
+        if self.value == math.inf:
+            return "1e999"
+        if self.value == -math.inf:
+            return "-1e999"
+        return super().__str__()
 
 
 class RegexLiteral(Literal[Pattern[str]]):
